@@ -34,8 +34,11 @@ func (p *partDisk) Writer() io.WriteSeeker {
 // Reader implements Part.
 func (p *partDisk) Reader() (io.ReadCloser, error) {
 	// read from RAM if possible
-	if p.buffer != nil {
-		return io.NopCloser(bytes.NewReader(p.buffer.Bytes())), nil
+	p.s.mutex.Lock()
+	buffer := p.buffer
+	p.s.mutex.Unlock()
+	if buffer != nil {
+		return io.NopCloser(bytes.NewReader(buffer.Bytes())), nil
 	}
 
 	// read from disk
